@@ -576,7 +576,7 @@ class CHText:
         # merge Chunk objects having the same 'syntax'.
         # may return the argument if there are no chunks to merge.
 
-        need_merge = any(
+        need_merge = any(not c.text for c in chunks_list) or any(
             c.has_same_type(next_c)
             for c, next_c in zip(chunks_list[:-1], chunks_list[1:]))
 
@@ -584,14 +584,14 @@ class CHText:
             return chunks_list
 
         result = []
-        cur_chunk = chunks_list[0]
-        for chunk in chunks_list[1:]:
-            if not cur_chunk.has_same_type(chunk):
-                result.append(cur_chunk)
-                cur_chunk = chunk
+        for chunk in chunks_list:
+            if not chunk.text:
+                # chunks with empty text are skipped (as in _append_chunk)
+                continue
+            if result and result[-1].has_same_type(chunk):
+                result[-1] = result[-1].add_chunks_same_type(chunk)
             else:
-                cur_chunk = cur_chunk.add_chunks_same_type(chunk)
-        result.append(cur_chunk)
+                result.append(chunk)
         return result
 
     def _get_chunk_pos(self, position):
